@@ -84,6 +84,11 @@ def gen_fn(rng):
     desc = {"name": "mux", "comps": comps, "phases": {}}
     if rng.random() < 0.5:
         gen.add_phases(rng, desc, unknown=0.0)
+    r = rng.random()
+    if r < 0.2:
+        gen.add_dupbridge(rng, desc)        # build histories that exercise the PMux input bookkeeping (re-link, de-duplication)
+    elif r < 0.4:
+        gen.add_bridge(rng, desc)
     return desc
 
 
